@@ -497,3 +497,30 @@ Print Assumptions C11_segmenter_total.
 
 Example C11_segmenter_total_example : forallb (seg_small ex_e2e_tb) [(1, 4); (5, 7)] = true.
 Proof. vm_compute. reflexivity. Qed.
+
+(* ---- (c) in total form: for every contiguous input below 2 GiB the pieces ARE written without error and
+   decode to the input (Resegment: the pieces that hold samples; Fragmentify: all pieces) ---- *)
+Theorem C11_resegment_total :
+  forall d (ss : list C11Model.fsample) segs opt T pos0 (tx : C05Model.trex),
+  contiguous_list ss = true -> times_fit ss -> 16 * lenN ss + bytes_of ss + 200 < 2147483648 ->
+  tx_track tx = T -> pos0 < 4611686018427387904 ->
+  resegment d ss = Ok segs ->
+  exists fes outs,
+    Forall2 (fun seg fe => write_segment opt T (map to_full seg) = Ok fe) (nonempty_pieces segs) fes /\
+    read_all (read_back tx pos0 []) fes = Ok outs /\ concat outs = map to_full ss.
+Proof. exact resegment_total. Qed.
+Print Assumptions C11_resegment_total.
+
+Theorem C11_fragmentify_total :
+  forall dur (frags : list (list C11Model.fsample)) opt T pos0 (tx : C05Model.trex),
+  contiguous_list (concat frags) = true -> times_fit (concat frags) ->
+  16 * lenN (concat frags) + bytes_of (concat frags) + 200 < 2147483648 ->
+  tx_track tx = T -> pos0 < 4611686018427387904 ->
+  exists pieces fes outs, fragmentify dur frags = Ok pieces /\
+    Forall2 (fun p fe => write_segment opt T (map to_full p) = Ok fe) pieces fes /\
+    read_all (read_back tx pos0 []) fes = Ok outs /\ concat outs = map to_full (concat frags).
+Proof. exact fragmentify_total. Qed.
+Print Assumptions C11_fragmentify_total.
+
+Example C11_resegment_total_example : 16 * lenN ex_samples + bytes_of ex_samples + 200 < 2147483648.
+Proof. vm_compute. reflexivity. Qed.
